@@ -786,9 +786,32 @@ fn two_splits(len: usize) -> Vec<Vec<usize>> {
     (1..len).map(|p| vec![p]).collect()
 }
 
-fn three_splits(len: usize, seed: u64) -> Vec<Vec<usize>> {
+/// random segmentations into 4..=12 pieces
+fn multi_splits(len: usize, seed: u64, count: usize) -> Vec<Vec<usize>> {
     let mut v = Vec::new();
-    if len <= 64 {
+    if len < 6 {
+        return v;
+    }
+    let mut x = seed.wrapping_mul(0x9e37_79b9_7f4a_7c15) | 1;
+    let mut next = || {
+        x ^= x << 13;
+        x ^= x >> 7;
+        x ^= x << 17;
+        x
+    };
+    for _ in 0..count {
+        let k = 3 + (next() % 9) as usize;
+        let mut pts: Vec<usize> = (0..k).map(|_| 1 + (next() as usize % (len - 1))).collect();
+        pts.sort();
+        pts.dedup();
+        v.push(pts);
+    }
+    v
+}
+
+fn three_splits(len: usize, seed: u64, dense: bool) -> Vec<Vec<usize>> {
+    let mut v = Vec::new();
+    if len <= if dense { 200 } else { 64 } {
         for a in 1..len {
             for b in a + 1..len {
                 v.push(vec![a, b]);
@@ -797,7 +820,7 @@ fn three_splits(len: usize, seed: u64) -> Vec<Vec<usize>> {
     } else {
         let mut pts: Vec<usize> = vec![1, 11, 12, 13, 24, len / 2, len - 2, len - 1];
         let mut x = seed | 1;
-        for _ in 0..20 {
+        for _ in 0..if dense { 120 } else { 20 } {
             x ^= x << 13;
             x ^= x >> 7;
             x ^= x << 17;
@@ -827,7 +850,7 @@ pub fn targets() -> Vec<Target> {
 pub fn run(ctx: &mut Ctx) {
     ctx.rule = "message set: every request the back-end server implements (incl. a 4096-byte SET_CONFIG and a 32-region SET_MEM_TABLE with 32 \
                 descriptors), every back-end-initiated request, every reply/ack kind read by Frontend, Backend proxy and GpuBackend. Per message: \
-                all 2-splits, all 3-splits (<= 64 bytes; selected points otherwise), byte-by-byte; each next segment is written only after the \
+                all 2-splits, all 3-splits (<= 64 bytes, thorough <= 200; selected points otherwise), random segmentations into 4..12 pieces, byte-by-byte; each next segment is written only after the \
                 receiver drained the previous one (FIONREAD == 0), so the split is experienced; all cut offsets 0..len followed by a half-close. \
                 Sender: bursts of maximum-size messages (Frontend requests, BackendReqHandler replies, and the GPU proxy's 16 KiB / 3 KB payload messages, which need several partial writes each) on a non-blocking socket with minimal SO_SNDBUF against a reader that waits for the \
                 sender to stall and then drains 1..97 bytes per read. Non-trivial = a split point strictly inside header or body, a cut strictly \
@@ -852,7 +875,9 @@ pub fn run(ctx: &mut Ctx) {
             // very long messages: a selection of 2-splits in quick
             splits = splits.into_iter().filter(|s| s[0] <= 40 || s[0] % 37 == 0 || s[0] + 40 >= len).collect();
         }
-        splits.extend(three_splits(len, ctx.seed ^ ti as u64));
+        let thorough = ctx.tier == crate::engine::Tier::Thorough;
+        splits.extend(three_splits(len, ctx.seed ^ ti as u64, thorough));
+        splits.extend(multi_splits(len, ctx.seed ^ (ti as u64) << 20, if thorough { 1500 } else { 3 }));
         if len <= 260 {
             splits.push((1..len).collect()); // byte by byte
         }
